@@ -233,7 +233,11 @@ def random_script(rng, gen, n_frames):
     con = C.Console(rng, gen, inst)
     frames = []
     for _ in range(n_frames):
-        frames.append(con.random_frame())
+        f = con.random_frame()
+        if rng.random() < 0.12 and len(f.split()) == 3:
+            # the console relays a status frame it addressed to another client (0xB1, 0xB7 ...): it reports the entity's state all the same
+            f += " " + rng.choice(["b1", "b7", "b2", "00"])
+        frames.append(f)
         if rng.random() < 0.1:
             frames.append(random_call(rng, inst))
     return inst, frames
